@@ -148,35 +148,34 @@ pub fn eval(dc: &Decaf, mode: Mode, bytes: &[u8], origin: &str) -> Outcome {
         if bytes.len() != 32 {
             return Outcome::trivial(class);
         }
-        // cheap pre-filter: a string the primary entry point rejects has nothing to re-encode
-        // (agreement of the entry points with each other is C02's business)
+        // the primary entry point decides acceptance (agreement of all entry points with each
+        // other and with the specification is C02's business)
         let mut a32 = [0u8; 32];
         a32.copy_from_slice(bytes);
-        if Encoding(a32).vartime_decompress().is_err() {
-            return Outcome::trivial(class);
+        let e = match Encoding(a32).vartime_decompress() {
+            Ok(e) => e,
+            Err(_) => return Outcome::trivial(class),
+        };
+        let re = e.vartime_compress().0;
+        if re[..] != bytes[..] {
+            return Outcome::bad(class, Viol { key: "C01b|reencode".into(), engine: "E3/C01b".into(), case: json!({"bytes": hex::encode(bytes), "origin": origin}), expected: format!("compress(decompress(b)) == b = {}", hex::encode(bytes)), got: hex::encode(re) });
         }
-    }
-    let eps = entry_points(bytes);
-    if mode == Mode::C01b {
-        let accepted: Vec<&(&str, V)> = eps.iter().filter(|e| matches!(e.1, V::Ok(_))).collect();
-        if accepted.is_empty() {
-            return Outcome::trivial(class);
+        match Encoding(re).vartime_decompress() {
+            Ok(d) if d == e => {}
+            _ => return Outcome::bad(class, Viol { key: "C01b|redecode".into(), engine: "E3/C01b".into(), case: json!({"bytes": hex::encode(bytes), "origin": origin}), expected: "decompress(compress(E)) == E".into(), got: "differs / error".into() }),
         }
-        for (name, v) in accepted {
-            if let V::Ok(c) = v {
-                let e = el_from_coords(c);
-                let re = e.vartime_compress().0;
-                if re[..] != bytes[..] {
-                    return Outcome::bad(class, Viol { key: format!("C01b|reencode|{name}"), engine: "E3/C01b".into(), case: json!({"bytes": hex::encode(bytes), "origin": origin}), expected: format!("compress(decompress(b)) == b = {}", hex::encode(bytes)), got: hex::encode(re) });
-                }
-                match Encoding(re).vartime_decompress() {
-                    Ok(d) if d == e => {}
-                    _ => return Outcome::bad(class, Viol { key: format!("C01b|redecode|{name}"), engine: "E3/C01b".into(), case: json!({"bytes": hex::encode(bytes), "origin": origin}), expected: "decompress(compress(E)) == E".into(), got: "differs / error".into() }),
+        // a second accepted string for the same element would break the bijection: the element's
+        // specification encoding must be this very string
+        if let Ok(p) = &spec {
+            if let Ok(se) = dc.encode_spec_bytes(p) {
+                if se[..] != bytes[..] {
+                    return Outcome::bad(class, Viol { key: "C01b|not-the-canonical-string".into(), engine: "E3/C01b".into(), case: json!({"bytes": hex::encode(bytes), "origin": origin}), expected: hex::encode(se), got: hex::encode(bytes) });
                 }
             }
         }
         return Outcome::ok(class);
     }
+    let eps = entry_points(bytes);
     // expected verdict per entry point
     let mut first_ok: Option<(&'static str, Coords)> = None;
     for (name, got) in &eps {
